@@ -158,6 +158,15 @@ CLAIMED = {
         design_ref="DESIGN.md section 5, C19",
         technique="Coq proof (order/typekey, pair enumeration, type assignment) with exhaustive small-graph model/implementation correspondence",
         note=NOTE_COMMON + " Partial: graph-level enumeration completeness by exhaustive correspondence, not by theorem."),
+    "C16": dict(
+        text="Theorems on the parsed-document model (all documents): a successful load yields one atom per entry in document order with its "
+             "element and coordinates and one bond per bond entry joining the atoms its references resolve to; with distinct ids the id of "
+             "the k-th entry names atom k whatever its spelling; a molecule without bond entries loads with zero bonds; a molecule whose "
+             "references all exist always loads. Tied to the code by generated documents (ids shuffled, arbitrary strings, case-only "
+             "differences, empty bond lists, large/negative coordinates) loaded by path and by open file.",
+        design_ref="DESIGN.md section 5, C16",
+        technique="Coq proof about the parsed-document model with model/implementation correspondence on generated CML documents",
+        note=NOTE_COMMON + " ElementTree and float() are trusted glue."),
 }
 
 PENDING_REASON = "no check registered yet: the Coq model and correspondence for this property are still being built (see DESIGN.md section 7 work order); nothing is claimed"
